@@ -129,12 +129,104 @@ def rule_reent(ctx, rule="C12.reent"):
                                     for rname, (k, rfn) in reach_self_calls(repo, c, cb).items():
                                         again = [y for y in ast.walk(rfn) if (isinstance(y, ast.Call) and isinstance(y.func, ast.Attribute) and y.func.attr == "acquire" and is_self_attr(y.func.value, L))
                                                  or (isinstance(y, ast.With) and any(is_self_attr(i.context_expr, L) for i in y.items))]
-                                        if again and not same_thread_guard(rfn, again[0]):
-                                            bad.append("%s() may call back %s, which reaches %s, which takes self.%s again" % (unparse(x.func), cb, rname, L))
+                                        if again:
+                                            # the candidate (a may-path over the call graph) is decided by executing it:
+                                            # the holder's method runs on an object built by the class's constructor,
+                                            # the external call answers by invoking the callback on the same thread
+                                            verdict = confirm_reentry(repo, c, name, L, x.func.value.attr, x.func.attr, cb)
+                                            if verdict is None:
+                                                verdict = "safe" if same_thread_guard(rfn, again[0]) else "deadlock"
+                                            if verdict == "deadlock":
+                                                bad.append("%s() may call back %s, which reaches %s, which takes self.%s again" % (unparse(x.func), cb, rname, L))
                     ctx.check(rule, not bad, w, "critical section of self.%s in %s.%s" % (L, c.name, name),
                               "the lock is not re-entrant and is re-acquired on the same thread through a callback: %s - the thread blocks on itself and the lock is never released" % "; ".join(sorted(set(bad))[:2]),
                               "no callback path re-acquires the lock (or the holder is recognised first)")
     ctx.units["C12.critical_sections"] = n_sections
+
+
+def confirm_reentry(repo, c, holder, L, X, f, cb):
+    """abstract execution of `holder` on an object of class c (built by its constructor) where the call self.X.f(...)
+    answers by calling back self.cb(...) synchronously, one thread throughout (its identity a constant).
+    -> 'deadlock' when in some path class a blocking acquisition of self.L happens while self.L is held,
+       'safe' when every path class was executed and none does, None when the scenario could not be executed"""
+    from ..absint import Interp, Obj, _Raise, _Return, NeedAtom, Budget, DomainGrew, C_NONE, enumerate_cells, flat_effects
+    from ..layers import LayerRunner
+    kk, cbfn = repo.find_method(c, cb)
+    if cbfn is None:
+        return None
+    ncb = len([a for a in cbfn.args.args][1:]) - len(cbfn.args.defaults)
+
+    def run(cell, domains):
+        runner = LayerRunner(repo, {})
+        hk = runner.hooks()
+
+        def current_thread(itp, recv, a, k, env, d, e):
+            t = Obj(None)
+            t.fields["ident"] = ("c", 4242)
+            t.fields["name"] = ("c", "T")
+            return ("obj", t)
+        hk["ext:*.current_thread"] = current_thread
+        hk["ext:*.currentThread"] = current_thread
+        hk["ext:*.get_ident"] = lambda itp, recv, a, k, env, d, e: ("c", 4242)
+        state = {"fired": False, "layer": None, "target": None}
+
+        def react(itp, recv, a, k, env, d, e):
+            if state["fired"] or state["layer"] is None or recv is not state["target"]:
+                return None
+            state["fired"] = True
+            itp.emit("CALL", "<callback %s>" % cb, [])
+            itp.method_call(state["layer"], cb, [("ext", "cbarg%d" % i, []) for i in range(max(ncb, 0))], {}, {"@module": c.module, "@owner": c}, d + 1, None)
+            return None
+        hk["ext:*." + f] = react
+        it = Interp(repo, cell, domains, hooks=hk)
+        it.layer_base = runner.base
+        layer = runner.make_layer(it, c) if runner.base in repo.mro(c) else it.construct(c, [], {}, {"@module": c.module, "@owner": None}, 0, None)
+        state["layer"] = layer
+        state["target"] = layer[1].fields.get(X)
+        lock = layer[1].fields.get(L)
+        it.effects[:] = []
+        km, m = repo.find_method(c, holder)
+        args = [("ext", "arg%d" % i, []) for i in range(len(m.args.args) - 1 - len(m.args.defaults))]
+        raised = None
+        try:
+            it.call_function(m, km, layer, args, {}, depth=0)
+        except _Raise as r:
+            raised = r.text
+        held = 0
+        blocked = False
+        for e in flat_effects(it.effects):
+            is_lock = None
+            if e[0] == "CALL" and len(e) > 3 and lock is not None and e[3] is lock:
+                if e[1].endswith(".acquire"):
+                    is_lock = "try" if (e[2] and e[2][0] == ("c", False)) or len(e[2]) > 1 else "acq"
+                elif e[1].endswith(".release"):
+                    is_lock = "rel"
+            elif e[0] == "ENTER" and e[1] is lock:
+                is_lock = "acq"
+            elif e[0] == "EXIT" and e[1] is lock:
+                is_lock = "rel"
+            if is_lock == "acq":
+                if held > 0:
+                    blocked = True
+                held += 1
+            elif is_lock == "try":
+                held += 1          # (a failed try is compensated by the interpreter with a release record)
+            elif is_lock == "rel":
+                held -= 1
+        return {"fired": state["fired"], "blocked": blocked, "lock": lock is not None and state["target"] is not None, "raised": raised}, it
+    try:
+        cells = enumerate_cells(run, {}, max_cells=256)
+    except (Budget, NeedAtom, DomainGrew, RecursionError):
+        return None
+    except Exception:
+        return None
+    if not cells or not all(r["lock"] for _c, r in cells):
+        return None
+    if any(r["blocked"] for _c, r in cells):
+        return "deadlock"
+    if not any(r["fired"] for _c, r in cells):
+        return None            # the external call was never reached in the execution: nothing was decided
+    return "safe"
 
 
 def same_thread_guard(fn, acquire_node):
